@@ -674,6 +674,11 @@ class Mir:
                             t1 = None
                         if t1 and t1[0].isupper():
                             ty = t1
+                    else:
+                        # no receiver (e.g. a derived `default()`): the generated type is the return type
+                        mr = re.search(r"\(\) -> ([\w:]+)\s*\{?\s*$", b.header)
+                        if mr and mr.group(1).split("::")[-1][0].isupper():
+                            ty = mr.group(1).split("::")[-1]
                 rest = name[m.end():]
                 if rest.startswith("::"):
                     rest = rest[2:]
